@@ -554,13 +554,13 @@ def scen_bool_symbolic(ch, params, out):
 def parts(tier):
     q = tier == "quick"
     return [
-        CH("first_match", "vflib.props.c09:scen_first_match", {"types": 3 if q else 4}, shards=8, timeout=170 if q else 300, path_timeout=30, mode="CH-P"),
-        CH("resolve", "vflib.props.c09:scen_resolve", {"types": 3 if q else 4}, shards=7 if q else 15, timeout=170 if q else 300, path_timeout=30),
+        CH("first_match", "vflib.props.c09:scen_first_match", {"types": 3 if q else 4}, shards=8, timeout=170 if q else 200, path_timeout=30, mode="CH-P"),
+        CH("resolve", "vflib.props.c09:scen_resolve", {"types": 3 if q else 4}, shards=7 if q else 15, timeout=170 if q else 200, path_timeout=30),
         SMT("replaces", "vflib.props.c09:kernel_replaces", {"validation_per_class": 20 if q else 60}, timeout=400, mode="SMT-S"),
-        CH("grammar", "vflib.props.c09:scen_grammar", {}, shards=7, timeout=170 if q else 300, path_timeout=30),
-        CH("disabled", "vflib.props.c09:scen_disabled", {}, shards=16, timeout=170 if q else 300, path_timeout=30),
-        CH("disabled_cli", "vflib.props.c09:scen_disabled_cli", {}, shards=8, timeout=170 if q else 300, path_timeout=30),
-        CH("bool_symbolic", "vflib.props.c09:scen_bool_symbolic", {"maxlen": 5, "maxcp": 127} if q else {"maxlen": 5}, shards=1, timeout=150 if q else 400, path_timeout=60, mode="CH-P"),
+        CH("grammar", "vflib.props.c09:scen_grammar", {}, shards=7, timeout=170 if q else 200, path_timeout=30),
+        CH("disabled", "vflib.props.c09:scen_disabled", {}, shards=16, timeout=170 if q else 200, path_timeout=30),
+        CH("disabled_cli", "vflib.props.c09:scen_disabled_cli", {}, shards=8, timeout=170 if q else 200, path_timeout=30),
+        CH("bool_symbolic", "vflib.props.c09:scen_bool_symbolic", {"maxlen": 5, "maxcp": 127} if q else {"maxlen": 5}, shards=1, timeout=150 if q else 300, path_timeout=60, mode="CH-P"),
     ]
 
 
